@@ -165,6 +165,32 @@ def contracts():
           'ctx is None or ufn("ctx.is", ctx, ret="Bool")',
           LOOKUP % ('ctx', 'name', 'default') + ' == ' +
           LOOKUP % ('self._parent_context', 'name', 'default')])])
+    # one KEY - the name without trailing underscores, converted when the
+    # caller asks for the convention - selects the overloads AND decides
+    # whether this layer is exclusive for the name
+    for conv in (False, True):
+        key = 'name.rstrip("_")'
+        if conv:
+            key = ('ite(use_convention, ufn("m.convert_function_name", '
+                   'self._convention, %s, ret="Str"), %s)' % (key, key))
+        c('Context.get_functions',
+          name='contexts.Context.get_functions/%s' % (
+              'convention' if conv else 'no-convention'),
+          params=dict(self=ctx if conv else obj(
+              'yaql.language.contexts.Context', _data=mapcell(),
+              _parent_context=TVal, _functions=mapcell(),
+              _exclusive_funcs=TVal, _convention=None),
+                      name=TStr, predicate=TVal, use_convention=TBool),
+          requires=['self._convention is not None'] if conv else [],
+          ensures=['result[1] == (%s in self._exclusive_funcs)' % key,
+                   'len(calls) >= 1 and calls[len(calls) - 1][0] == '
+                   '"py.filter"',
+                   'implies(%s in self._functions, calls[len(calls) - 1][1]'
+                   '[1] == self._functions[%s])' % (key, key),
+                   'implies(not (%s in self._functions), forall(Val, '
+                   'lambda f: not (f in calls[len(calls) - 1][1][1])))'
+                   % key],
+          serves=('C17', 'C05'))
     c('Context.__setitem__', params=dict(self=ctx, name=TStr, value=TVal),
       ensures=['self._data[%s] == value' % NORM,
                'forall(Str, lambda k: implies(k != %s, '
